@@ -177,6 +177,62 @@ def shared_object_cases(run, cols, reqs, cache):
                         + d, payload=payload, theorem="C06_execute_or_skip")
 
 
+def estimate_between_cases(run):
+    """pipeline A (with a slope correction that moves the contact point
+    estimate), then calls that estimate the contact point on A's data
+    (fit_model with the library's own guess, estimate_contact_point_index),
+    then pipeline B: B's columns are those of B on a fresh curve"""
+    from . import c07
+    cols, k = c07.synthetic("hertz_para", 5, tilt=0.25, drift=0.1, lag=0,
+                            noise=5e-11, n_app=160, n_ret=80)
+    A = (["compute_tip_position", "correct_tip_offset", "correct_force_slope"],
+         {"correct_force_slope": {"region": "all", "strategy": "drift"},
+          "correct_tip_offset": {"method": "fit_constant_line"}})
+    Bs = [(["compute_tip_position", "correct_tip_offset"],
+           {"correct_tip_offset": {"method": "fit_constant_line"}}),
+          (["compute_tip_position", "correct_force_offset",
+            "correct_tip_offset"],
+           {"correct_tip_offset": {"method": "fit_constant_line"}}),
+          (["compute_tip_position", "correct_tip_offset"],
+           {"correct_tip_offset": {"method": "deviation_from_baseline"}})]
+    for between in ("fit_model", "estimate", "both"):
+        for B in Bs:
+            fresh = curves.make_indentation(cols, k=k)
+            fresh.apply_preprocessing(copy.deepcopy(B[0]),
+                                      copy.deepcopy(B[1]))
+            ref = snapshot(fresh)
+            idnt = curves.make_indentation(cols, k=k)
+            key = "estimate-between:" + common.sha([between, canon(B)])[:16]
+            run.case({"A": canon(A), "between": between, "B": canon(B)},
+                     kind="estimate-between")
+            try:
+                import warnings
+                with warnings.catch_warnings():
+                    warnings.simplefilter("ignore")
+                    idnt.apply_preprocessing(copy.deepcopy(A[0]),
+                                             copy.deepcopy(A[1]))
+                    if between in ("fit_model", "both"):
+                        idnt.fit_model(model_key="hertz_para")
+                    if between in ("estimate", "both"):
+                        for m in ("fit_constant_line",
+                                  "deviation_from_baseline"):
+                            idnt.estimate_contact_point_index(method=m)
+                    idnt.apply_preprocessing(copy.deepcopy(B[0]),
+                                             copy.deepcopy(B[1]))
+                now = snapshot(idnt)
+                for c in ["fit", "fit residuals", "fit range"]:
+                    now.pop(c, None)
+                d = diff_cols(now, ref)
+            except BaseException as e:
+                d = f"raised {type(e).__name__}: {e}"
+            if d:
+                run.failing(SITE, key, f"{canon(A)}, then {between}, then "
+                            f"{canon(B)}: columns differ from the last "
+                            "request on a fresh curve: " + d,
+                            payload={"kind": "rerun"},
+                            theorem="C06_execute_or_skip")
+
+
 def check(run):
     run.sources = common.source_digests(["src/nanite/indent.py",
                                          "src/nanite/preproc.py"])
@@ -211,6 +267,7 @@ def check(run):
         for B in reqs[::2]:
             pair_oracle(run, cols, A, B, cache, via_fit=True)
     shared_object_cases(run, cols, reqs, cache)
+    estimate_between_cases(run)
     if run.tier != "quick":
         from nanite import IndentationGroup
         import pathlib
